@@ -1,6 +1,7 @@
 package main
 
 import (
+	"io"
 	"bytes"
 	"crypto/ecdsa"
 	"crypto/ed25519"
@@ -27,9 +28,21 @@ func runTool(env []string, stdout *bytes.Buffer, name string, args ...string) (s
 	return runToolIn("", env, stdout, name, args...)
 }
 
+// runToolStdin feeds the tool through a pipe on its standard input (not a regular file: size 0, not seekable)
+func runToolStdin(stdin []byte, env []string, stdout *bytes.Buffer, name string, args ...string) (string, error) {
+	toolStdin = stdin
+	defer func() { toolStdin = nil }()
+	return runToolIn("", env, stdout, name, args...)
+}
+
+var toolStdin []byte
+
 func runToolIn(dir string, env []string, stdout *bytes.Buffer, name string, args ...string) (string, error) {
 	cmd := exec.Command(filepath.Join(binDir(), name), args...)
 	cmd.Dir = dir
+	if toolStdin != nil {
+		cmd.Stdin = io.MultiReader(bytes.NewReader(toolStdin)) // not an *os.File: exec hands the tool a pipe
+	}
 	var se bytes.Buffer
 	if stdout != nil {
 		cmd.Stdout = stdout
@@ -340,8 +353,16 @@ func opCliChain(a []Sx) Sx {
 			return fail("gen-certurl", se)
 		}
 		os.WriteFile(certCbor, out.Bytes(), 0600)
-		if se, err := runTool(env, nil, "dump-certurl", "-i", certCbor); err != nil {
+		var viaFile, viaPipe bytes.Buffer
+		if se, err := runTool(env, &viaFile, "dump-certurl", "-i", certCbor); err != nil {
 			return fail("dump-certurl rejects gen-certurl output", se)
+		}
+		// gen-certurl ... | dump-certurl
+		if se, err := runToolStdin(out.Bytes(), env, &viaPipe, "dump-certurl"); err != nil {
+			return fail("dump-certurl rejects gen-certurl output that arrives through a pipe", se)
+		}
+		if viaFile.String() != viaPipe.String() {
+			return fail("dump-certurl prints something else for a pipe", "")
 		}
 		if kind == "certurl" {
 			return L(Sym("ok"))
@@ -375,6 +396,14 @@ func opCliChain(a []Sx) Sx {
 		se, err := runTool(env, &vo, "dump-signedexchange", "-i", sxgPath, "-verify", "-cert", certCbor, "-payload=false")
 		if err != nil || !strings.Contains(vo.String(), "The exchange has a valid signature.") {
 			return fail("dump-signedexchange -verify rejects gen-signedexchange output", se+vo.String())
+		}
+		// gen-signedexchange ... | dump-signedexchange -verify
+		if sxgBytes, rerr := os.ReadFile(sxgPath); rerr == nil {
+			var po bytes.Buffer
+			se, err := runToolStdin(sxgBytes, env, &po, "dump-signedexchange", "-verify", "-cert", certCbor, "-payload=false")
+			if err != nil || !strings.Contains(po.String(), "The exchange has a valid signature.") {
+				return fail("dump-signedexchange -verify rejects gen-signedexchange output that arrives through a pipe", se+po.String())
+			}
 		}
 		return L(Sym("ok"))
 	case "signbundle":
@@ -467,7 +496,7 @@ func opCliChain(a []Sx) Sx {
 
 func genC20(r *Rng, tier string) []Case {
 	cs := []Case{}
-	names := []string{"a.txt", "b c.html", "h#frag.txt", "a?b", "p%41", "100%", "x:y", ":colon", "é.txt", "日本.html", "index.html", ".hidden", "semi;colon", "q=1&r", "plus+", "at@", "tilde~", "bang!", "(paren)", "quote'\"", "back\\slash", "star*", "new\nline", "tab\there", "[brk]", "caret^", "pipe|", "\xff\xfe", "..."}
+	names := []string{"a.txt", "b c.html", "h#frag.txt", "a?b", "p%41", "100%", "x:y", ":colon", "é.txt", "日本.html", "index.html", ".hidden", "semi;colon", "q=1&r", "plus+", "at@", "tilde~", "bang!", "(paren)", "quote'\"", "back\\slash", "star*", "new\nline", "tab\there", "[brk]", "caret^", "pipe|", "\xff\xfe", "...", "out.wbn", "in.wbn", "out.swbn", "cert.cbor", "key.pem"}
 	dirs := []string{"sub", "sub dir", "d#1", "深", "a/b/c", "sub/index.html.d"}
 	bases := []string{"https://example.com/", "https://example.com", "https://example.com/site/", "https://example.com:8443/a/b/", "https://example.com/site/page.html", "https://example.com/site/?q=1", "https://example.com/site/#frag"}
 	n := 40
@@ -521,6 +550,14 @@ func genC20(r *Rng, tier string) []Case {
 			// sign the same kind of tree with both sub-commands
 			simple := []Sx{L(B([]byte("")), Zi(1), B(nil)), L(B([]byte("index.html")), Zi(0), B([]byte("<html>hi</html>"))), L(B([]byte("a b#c.txt")), Zi(0), B(r.Bytes(100))), L(B([]byte("sub")), Zi(1), B(nil)), L(B([]byte("sub/x?.js")), Zi(0), B(r.Bytes(5000)))}
 			cs = append(cs, Case{"cli_chain", []Sx{Sym("signbundle"), Sym(ver), L(simple...), Sym([]string{"sec1", "pkcs8", "encrypted", "params", "bagtext"}[r.Intn(5)]), Zi(int64([]int{1, 16, 4096, 16384}[r.Intn(4)])), Zi(int64(r.Intn(2))), Zi(int64(r.Intn(4)))}})
+		}
+	}
+	// files named like the tools' own outputs are ordinary files of the tree
+	{
+		tree := []Sx{L(B([]byte("")), Zi(1), B(nil)), L(B([]byte("index.html")), Zi(0), B([]byte("<html>hi</html>"))), L(B([]byte("out.wbn")), Zi(0), B([]byte("not a bundle"))),
+			L(B([]byte("downloads")), Zi(1), B(nil)), L(B([]byte("downloads/out.wbn")), Zi(0), B(r.Bytes(50))), L(B([]byte("downloads/in.wbn")), Zi(0), B(r.Bytes(5)))}
+		for _, ver := range []string{"b1", "b2"} {
+			cs = append(cs, Case{"cli_gen_dir", []Sx{Sym(ver), B([]byte("https://example.com/site/")), L(tree...), Sym("abs")}})
 		}
 	}
 	// a b1 bundle with a manifest section, signed and dumped
